@@ -257,7 +257,10 @@ def check_C07(tier, seed):
                       '(proved of the spectral_diff_matrix model in DiffMat.v). Not derivable syntactically and therefore not covered: '
                       'second row of the O(r^2) system under M (needs a cancellation between fX0 and fXc), *_untwisted under T, '
                       'Cartesian converters; thresholded root selection in r_singularity and iota2 under F are outside the theorem. '
-                      'Newton/linear solves enter through their residual equations.',
+                      'Newton/linear solves enter through their residual equations. Definite parity (last clause): for the composition S of mirror and toroidal reversal '
+                      '(the symmetry OF a stellarator-symmetric input; sign = product of the M and T signs, grid reversal, anticommuting matrix) each stage has a theorem '
+                      'C07_parity_<stage> (Sign.parity_law): if every typed input of the stage satisfies v(j) = s*v(n-j) then every typed output does, for every grid size; '
+                      'for the oracle solutions (sigma, iota; X20, Y20) the hypothesis follows from the covariance of their equations when the solution is unique (uniqueness not proved).',
                       oracle_args=['--prop', 'C07'], seq_obligations=['props/C07_lasym.v', 'props/Actions.v', 'props/Axis.v'])
 
 
